@@ -86,7 +86,7 @@ def serial_unit(kf):
                  rewrites=[AwaitErase(), Sub('resolve_container_inner(ctx, root, false)', 'resolve_container_inner(ctx, root, false, tr)', rule='R-await')],
                  ensures=[post + '   // the serial entry point really selects the serial branch'])
     u.trusted('''
-pub enum Act { ParallelQuery, SerialEmptyMutation, SerialMutation }
+pub enum Act { ParallelQuery, SerialEmptyMutation, SerialMutation, ParallelMutation }
 pub uninterp spec fn act_result(a: Act) -> ServerResult<Value>;
 #[verifier::external_body]
 pub fn act(a: Act) -> (r: ServerResult<Value>) ensures r == act_result(a) { unimplemented!() }
@@ -103,6 +103,7 @@ pub fn verif_server_error() -> ServerError { ServerError { id: 0 } }
                                  Sub('resolve_container(&ctx, &self.0.query).await', 'act(Act::ParallelQuery)', rule='R-payload'),
                                  Sub('resolve_container_serial(&ctx, &EmptyMutation).await', 'act(Act::SerialEmptyMutation)', rule='R-payload'),
                                  Sub('resolve_container_serial(&ctx, &self.0.mutation).await', 'act(Act::SerialMutation)', rule='R-payload'),
+                                 Sub('resolve_container(&ctx, &self.0.mutation).await', 'act(Act::ParallelMutation)', count='*', rule='R-payload'),
                                  Sub('self.0.env.registry.introspection_mode', 'schema_mode', rule='R-ty'), Sub('env.introspection_mode', 'req_mode', rule='R-ty'),
                                  Sub('Err(ServerError::new( "Subscriptions are not supported on this transport.", None, ))', 'Err(verif_server_error())', rule='R-msg')],
                        ensures=['*ty is Mutation ==> res == (if schema_mode is IntrospectionOnly || req_mode is IntrospectionOnly { act_result(Act::SerialEmptyMutation) } else { act_result(Act::SerialMutation) })   // a mutation is only ever dispatched to the serial entry point',
@@ -118,4 +119,7 @@ UNITS = {'c04_serial_container': (['C04'], serial_unit)}
 SEARCH = {'c04_serial_container': ['c04_serial']}
 BOUNDED = {'C04': [dict(case='c04_serial', function='Schema::execute of mutation operations (execute_once dispatch, resolve_container_serial, Fields::add_set) observed through an event log with yielding resolvers',
                         bound='7 mutation documents (order permutations, aliases, nested selections, a failing field, an inline fragment) on a busy-polling single-threaded executor',
-                        why='ties the await-erased kernel to the real futures: resolvers really yield (Pending) twice, so a parallel join would interleave their events')]}
+                        why='ties the await-erased kernel to the real futures: resolvers really yield (Pending) twice, so a parallel join would interleave their events'),
+                   dict(case='c04_merge', function='src/resolver_utils/container.rs::{create_value_object, insert_value} through Schema::execute (sub-selections of fields sharing a response key are merged)',
+                        bound='6 hand-written (query, expected JSON text) pairs: repeated keys on objects, lists of objects and nested lists, through aliases and fragments',
+                        why='insert_value recurses through `IndexMap::get_mut` / `Vec::get_mut` borrows (&mut into a map entry, then into a list slot): returning &mut from a shim is outside the installed Verus; Kani diverges on Value drop glue (measured)')]}
